@@ -88,18 +88,23 @@ CHECKS = {
         thorough=[R("^TestCommitExhaustive$", 1, 1, 300)],
     ),
     "C07": dict(
-        pkg="./props/c07", level="exploration",
+        pkg="./props/c07", bins=["./cmd/simcore"], level="exploration",
         rule=("rapid-generated schedules for the shared run counter: 1-5 callers with 1-4 NewRunNumber calls each (some through fresh Service "
               "instances = restarts), counter initially absent / small / large; the simulated Consul holds every request on the counter key and "
               "the drawn script decides which held request is served next, with which verdict (serve, drop before applying, apply then cut the "
               "reply, 500, CAS refused) and whether a foreign writer bumps the counter first. Oracle on the call history: successful values "
               "pairwise distinct, increasing in real-time order, each backed by an applied CAS of its own caller, counter never behind. "
-              "Non-trivial: >=1 CAS conflict or injected fault. Distinct = distinct case digests."),
+              "Non-trivial: >=1 CAS conflict or injected fault. Whole core (TestRunNumbersCore): 1-4 rounds in which one or two fresh environments of "
+              "the real core START concurrently while the script decides the fate of every write on the counter (serve, CAS refused, 500, "
+              "dropped, applied with the reply cut) and a foreign writer may advance it; the core may be restarted between rounds. Oracle on the "
+              "ControlEnvironment replies: a RUNNING environment has a non-zero number, numbers are pairwise distinct, larger than every number "
+              "handed out before (and than the initial counter), never ahead of the counter; a START that got no number is not RUNNING and its "
+              "tasks received no START; the counter never goes back. Distinct = distinct case digests."),
         assumptions=["the harness owns the order in which Consul serves requests; Go's HTTP transport may transparently retry a request whose connection was cut (accepted: the retry is an ordinary request)",
                      "simulated Consul implements cas= semantics (cas=0 creates only if absent; otherwise ModifyIndex must match)"],
-        quick=[R("^TestRunNumbersFixed$", 1, 1, 120), R("^TestRunNumbers$", 700, 8, 300)],
-        thorough=[R("^TestRunNumbersFixed$", 1, 1, 120), R("^TestRunNumbers$", 8000, 14, 2400)],
-        floors={"cas-conflict": ("TestRunNumbers", 0.2)},
+        quick=[R("^(TestRunNumbersFixed|TestRunNumbersCoreFixed)$", 1, 1, 300), R("^TestRunNumbers$", 700, 8, 300), R("^TestRunNumbersCore$", 25, 6, 900, shrinktime="60s")],
+        thorough=[R("^(TestRunNumbersFixed|TestRunNumbersCoreFixed)$", 1, 1, 300), R("^TestRunNumbers$", 8000, 14, 2400), R("^TestRunNumbersCore$", 600, 8, 3400, shrinktime="180s")],
+        floors={"cas-conflict": ("TestRunNumbers", 0.2), "injected-fault": ("TestRunNumbersCore", 0.3), "run-started": ("TestRunNumbersCore", 0.5)},
     ),
     "C05": dict(
         pkg="./props/c05", bins=["./cmd/simcore"], level="exploration",
